@@ -16,13 +16,25 @@ LOG="$OUT/confirm.log"; : > "$LOG"
 say() { echo "$@" | tee -a "$LOG"; }
 say "seed $P-$V against /repo HEAD $HEAD; demo at $DEMO_LOC"
 git -C "$WT" apply --check "$SRC/patch.diff" 2>>"$LOG" || { say "RESULT patch-does-not-apply"; exit 3; }
+if [ -f "$SRC/demo.diff" ]; then
+  # demo is a test function added to the binary crate's own test module
+  git -C "$WT" apply "$SRC/demo.diff" 2>>"$LOG" || { say "RESULT demo-diff-does-not-apply"; exit 3; }
+  ( cd "$WT" && cargo test --offline -p feather-build-rs seed_demo >"$OUT/demo_without.log" 2>&1 ); D0=$?
+  grep -q "test result: ok. [1-9]" "$OUT/demo_without.log" || D0=99
+  git -C "$WT" apply "$SRC/patch.diff"
+  ( cd "$WT" && cargo test --offline -p feather-build-rs seed_demo >"$OUT/demo_with.log" 2>&1 ); D1=$?
+  git -C "$WT" checkout -q -- . ; git -C "$WT" apply "$SRC/patch.diff"
+  cp "$SRC/demo.diff" "$OUT/"
+else
 # 1 demo without patch
+mkdir -p "$(dirname "$WT/$DEMO_LOC")"
 cp "$SRC/demo.rs" "$WT/$DEMO_LOC"
 ( cd "$WT" && cargo test --offline -p "$CRATE" --test "$TNAME" >"$OUT/demo_without.log" 2>&1 ); D0=$?
 # 2 demo with patch
 git -C "$WT" apply "$SRC/patch.diff"
 ( cd "$WT" && cargo test --offline -p "$CRATE" --test "$TNAME" >"$OUT/demo_with.log" 2>&1 ); D1=$?
 rm -f "$WT/$DEMO_LOC"
+fi
 # 3 suite with patch
 ( cd "$WT" && cargo test --workspace --offline >"$OUT/suite_with.log" 2>&1 ); S1=$?
 say "demo without patch: exit $D0 (want 0); demo with patch: exit $D1 (want non-0); suite with patch: exit $S1 (want 0)"
